@@ -177,7 +177,10 @@ func NotifyContext(parent context.Context, sigs ...os.Signal) (context.Context, 
 	c := newCtx(parent)
 	if len(sigs) == 0 && c.err == nil {
 		d := 10*time.Millisecond + time.Duration(schedRNG.intn(10_000))*time.Microsecond
-		c.timer = addTimer(d, func() { journal.Faults = append(journal.Faults, "signal:SIGURG:runtime-preemption"); c.cancel(context.Canceled) })
+		c.timer = addTimer(d, func() {
+			journal.Faults = append(journal.Faults, "signal:SIGURG:runtime-preemption")
+			c.cancel(context.Canceled)
+		})
 	}
 	return c, func() { yieldPoint(); c.cancel(context.Canceled) }
 }
